@@ -47,6 +47,11 @@ BMCS = [1, 12, 123, 1234, 2, 21, 4294967295, 100, 10, 0, 0, 7]
 
 def run_case(case):
     rng = random.Random(case['seed'])
+    if case['seed'] % 2:
+        seams.install_registry()        # every second directory is shown with a message registry installed
+    else:
+        import pel.peltool.src as _src
+        _src.registry.pels = []
     d = os.path.join(seams.scratch_dir('c10'), 'dir')
     n = rng.randint(3, 14)
     eids = rng.sample([0x50000001, 0x50000011, 0x50000101, 0x5000001A, 0x500000A1, 0x00001234, 0x0ABCDEF0,
